@@ -174,6 +174,14 @@ class PredSig:
             return {i for i, a in enumerate(args) if is_ptr(a)}   # shared helper: data pointers, not ids / counts
         return flt
 
+    def keep_call(self, n):
+        """ledger mode: only helpers of the attribute coding layer are part of the value's meaning; corner-table
+        navigation (SwingLeft/Right, Next, Vertex ...) selects *positions* and comes and goes with loop shapes"""
+        if not self.inline_dir:
+            return True
+        tg = self.F.targets(n)
+        return any("/compression/attributes/" in t.file for t in tg) if tg else False
+
     def max_depth(self):
         return LEDGER_DEPTH if self.inline_dir else MAX_DEPTH
 
@@ -219,7 +227,7 @@ class PredSig:
                     a2, c2, _ = self.return_sig(tg[0], depth + 1)
                     arith |= a2
                     calls |= c2
-                else:
+                elif self.keep_call(n):
                     calls.add(strip_targs(fnm).replace("draco::", ""))
         return arith, calls
 
@@ -333,7 +341,7 @@ class PredSig:
                                 a2, c2, _ = self.param_sig(tg[0], i, depth + 1)
                                 arith |= a2
                                 calls |= c2
-                        else:
+                        elif self.keep_call(n):
                             calls.add(strip_targs(fnm).replace("draco::", ""))
                         # the callee computes the target from the data its other arguments point to
                         # (scalar arguments - ids, counts, corners - are positions, not values)
